@@ -253,8 +253,8 @@ theorem runStmt_stepE (hev : EvE env ev) (ih : MIHE env ev g) (n : Node) :
     intro q hq
     simp only [In, posOf, List.mem_cons, List.mem_append]
     rcases hq with hq | hq
-    · exact Or.inr (Or.inr (Or.inl hq))
-    · exact Or.inr (Or.inr (Or.inr hq))
+    · exact Or.inr (Or.inl hq)
+    · exact Or.inr (Or.inr hq)
   case forS ini c l body p =>
     have hl : EOK env (forLoop env ev g c l body) (In (.forS ini c l body p)) := by
       refine (ih.loop c l body).mono ?_
